@@ -605,6 +605,7 @@ def tasks(tier, seed=0):
             for s_ in starts:
                 split(g, s_, 3, FULL)
         split("two_roots_grandchild", "forked", 4, REDUCED)
+        split("two_roots_grandchild", "set", 4, {"copy"})
         ts.append(("history_task", dict(graph="hyper_fed", start="forked", depth=3, alphabet=sorted(FULL))))
         for kind, kw in [("logistic", dict(features=["a", "b"], source_dimension=1)), ("linear", dict(features=["a", "b"], source_dimension=0))]:
             for s_ in ("cached", "forked"):
